@@ -1,6 +1,9 @@
 //go:build verif
 
-package plugin_test
+// Package verifw holds the helpers shared by the wildcard drivers (C13, C14, C15) of the
+// packages plugin and config: construction and Gallina rendering of system.IP / system.Route /
+// NDP options, and the bounded-exhaustive sequence generator.
+package verifw
 
 import (
 	"fmt"
@@ -13,11 +16,9 @@ import (
 	"github.com/mdlayher/ndp"
 )
 
-// Helpers shared by the wildcard drivers (C13, C14, C15).
-
-// wIP builds a system.IP; flags is a string of letters: d(eprecated) m(anage temporary)
+// IP builds a system.IP; flags is a string of letters: d(eprecated) m(anage temporary)
 // s(table privacy) t(emporary) n(tentative) f(orever).
-func wIP(pfx string, flags string) system.IP {
+func IP(pfx string, flags string) system.IP {
 	ip := system.IP{Address: netip.MustParsePrefix(pfx)}
 	for _, c := range flags {
 		switch c {
@@ -40,7 +41,7 @@ func wIP(pfx string, flags string) system.IP {
 	return ip
 }
 
-func wFlags(ip system.IP) string {
+func Flags(ip system.IP) string {
 	var b strings.Builder
 	for _, f := range []struct {
 		on bool
@@ -54,17 +55,17 @@ func wFlags(ip system.IP) string {
 	return b.String()
 }
 
-// wIPCoq renders a system.IP as a Model.Types.sysip.
-func wIPCoq(ip system.IP) string {
+// IPCoq renders a system.IP as a Model.Types.sysip.
+func IPCoq(ip system.IP) string {
 	a := ip.Address.Addr()
-	return verifh.App("mkIP", verifh.B(a.Is4()), wAddrN(a), verifh.N(uint64(ip.Address.Bits())),
+	return verifh.App("mkIP", verifh.B(a.Is4()), AddrN(a), verifh.N(uint64(ip.Address.Bits())),
 		verifh.B(ip.Deprecated), verifh.B(ip.ManageTemporaryAddresses), verifh.B(ip.StablePrivacy),
 		verifh.B(ip.Temporary), verifh.B(ip.Tentative), verifh.B(ip.ValidForever))
 }
 
-// wAddrN renders an address as a hexadecimal N literal (Coq parses these much faster than
+// AddrN renders an address as a hexadecimal N literal (Coq parses these much faster than
 // 39-digit decimal ones); IPv4 addresses as their 32-bit value.
-func wAddrN(a netip.Addr) string {
+func AddrN(a netip.Addr) string {
 	if !a.IsValid() {
 		return "0%N"
 	}
@@ -76,19 +77,19 @@ func wAddrN(a netip.Addr) string {
 	return "0x" + new(big.Int).SetBytes(b[:]).Text(16) + "%N"
 }
 
-func wIPsCoq(ips []system.IP) string {
+func IPsCoq(ips []system.IP) string {
 	items := make([]string, 0, len(ips))
 	for _, ip := range ips {
-		items = append(items, wIPCoq(ip))
+		items = append(items, IPCoq(ip))
 	}
 	return verifh.List(items)
 }
 
-func wIPsJSON(ips []system.IP) []string {
+func IPsJSON(ips []system.IP) []string {
 	res := make([]string, 0, len(ips))
 	for _, ip := range ips {
 		s := ip.Address.String()
-		if f := wFlags(ip); f != "" {
+		if f := Flags(ip); f != "" {
 			s += " " + f
 		}
 		res = append(res, s)
@@ -96,12 +97,12 @@ func wIPsJSON(ips []system.IP) []string {
 	return res
 }
 
-func wRouteCoq(r system.Route) string {
+func RouteCoq(r system.Route) string {
 	a := r.Prefix.Addr()
-	return verifh.App("mkRoute", verifh.B(a.Is4()), wAddrN(a), verifh.N(uint64(r.Prefix.Bits())))
+	return verifh.App("mkRoute", verifh.B(a.Is4()), AddrN(a), verifh.N(uint64(r.Prefix.Bits())))
 }
 
-func wPref(p ndp.Preference) string {
+func Pref(p ndp.Preference) string {
 	switch p {
 	case ndp.Low:
 		return "Low"
@@ -112,8 +113,8 @@ func wPref(p ndp.Preference) string {
 	}
 }
 
-// wOptsCoq renders the options of an RA as a list of Model.Types.opt.
-func wOptsCoq(opts []ndp.Option) (string, []string) {
+// OptsCoq renders the options of an RA as a list of Model.Types.opt.
+func OptsCoq(opts []ndp.Option) (string, []string) {
 	items := make([]string, 0, len(opts))
 	js := make([]string, 0, len(opts))
 	for _, o := range opts {
@@ -121,18 +122,18 @@ func wOptsCoq(opts []ndp.Option) (string, []string) {
 		case *ndp.PrefixInformation:
 			items = append(items, verifh.App("OPrefix", verifh.N(uint64(o.PrefixLength)), verifh.B(o.OnLink),
 				verifh.B(o.AutonomousAddressConfiguration), verifh.Z(int64(o.ValidLifetime)),
-				verifh.Z(int64(o.PreferredLifetime)), wAddrN(o.Prefix)))
+				verifh.Z(int64(o.PreferredLifetime)), AddrN(o.Prefix)))
 			js = append(js, fmt.Sprintf("prefix %s/%d onlink=%v auto=%v valid=%d pref=%d", o.Prefix, o.PrefixLength,
 				o.OnLink, o.AutonomousAddressConfiguration, int64(o.ValidLifetime), int64(o.PreferredLifetime)))
 		case *ndp.RouteInformation:
-			items = append(items, verifh.App("ORoute", verifh.N(uint64(o.PrefixLength)), wPref(o.Preference),
-				verifh.Z(int64(o.RouteLifetime)), wAddrN(o.Prefix)))
-			js = append(js, fmt.Sprintf("route %s/%d pref=%s lifetime=%d", o.Prefix, o.PrefixLength, wPref(o.Preference), int64(o.RouteLifetime)))
+			items = append(items, verifh.App("ORoute", verifh.N(uint64(o.PrefixLength)), Pref(o.Preference),
+				verifh.Z(int64(o.RouteLifetime)), AddrN(o.Prefix)))
+			js = append(js, fmt.Sprintf("route %s/%d pref=%s lifetime=%d", o.Prefix, o.PrefixLength, Pref(o.Preference), int64(o.RouteLifetime)))
 		case *ndp.RecursiveDNSServer:
 			ss := make([]string, 0, len(o.Servers))
 			sj := make([]string, 0, len(o.Servers))
 			for _, s := range o.Servers {
-				ss = append(ss, wAddrN(s))
+				ss = append(ss, AddrN(s))
 				sj = append(sj, s.String())
 			}
 			items = append(items, verifh.App("ORDNSS", verifh.Z(int64(o.Lifetime)), verifh.List(ss)))
@@ -145,19 +146,19 @@ func wOptsCoq(opts []ndp.Option) (string, []string) {
 	return verifh.List(items), js
 }
 
-// wResult renders the outcome of Apply: Ok options, or Err 0.
-func wResult(ra *ndp.RouterAdvertisement, err error) (string, any) {
+// Result renders the outcome of Apply: Ok options, or Err 0.
+func Result(ra *ndp.RouterAdvertisement, err error) (string, any) {
 	if err != nil {
 		return "(Err 0%N)", "error"
 	}
-	c, js := wOptsCoq(ra.Options)
+	c, js := OptsCoq(ra.Options)
 	return verifh.App("Ok", c), js
 }
 
-// wSeqs calls fn with every sequence (with repetition) of indices < n of length 0..maxLen.
+// Seqs calls fn with every sequence (with repetition) of indices < n of length 0..maxLen.
 // The sequences with distinct elements are exactly the permutations of all subsets of size <= maxLen;
 // the others repeat entries.
-func wSeqs(n, maxLen int, fn func(seq []int)) {
+func Seqs(n, maxLen int, fn func(seq []int)) {
 	var rec func(seq []int)
 	rec = func(seq []int) {
 		fn(seq)
@@ -171,7 +172,7 @@ func wSeqs(n, maxLen int, fn func(seq []int)) {
 	rec(make([]int, 0, maxLen))
 }
 
-func wSeqID(seq []int) string {
+func SeqID(seq []int) string {
 	var b strings.Builder
 	for k, i := range seq {
 		if k > 0 {
@@ -185,7 +186,7 @@ func wSeqID(seq []int) string {
 	return b.String()
 }
 
-func wDistinct(seq []int) bool {
+func Distinct(seq []int) bool {
 	for i := range seq {
 		for j := 0; j < i; j++ {
 			if seq[i] == seq[j] {
@@ -196,8 +197,8 @@ func wDistinct(seq []int) bool {
 	return true
 }
 
-// wAddr16 builds an IPv6 address from a 64-bit network part and a 64-bit host part.
-func wAddr16(hi, lo uint64) netip.Addr {
+// Addr16 builds an IPv6 address from a 64-bit network part and a 64-bit host part.
+func Addr16(hi, lo uint64) netip.Addr {
 	var b [16]byte
 	for i := 0; i < 8; i++ {
 		b[i] = byte(hi >> (56 - 8*i))
@@ -206,8 +207,8 @@ func wAddr16(hi, lo uint64) netip.Addr {
 	return netip.AddrFrom16(b)
 }
 
-// wLifetimes draws stanza lifetimes, an epoch and a clock reading.
-func wLifetimes(r *verifh.Rand) (valid, pref int64, dep bool, epoch, now int64) {
+// Lifetimes draws stanza lifetimes, an epoch and a clock reading.
+func Lifetimes(r *verifh.Rand) (valid, pref int64, dep bool, epoch, now int64) {
 	durs := []int64{1e9, 1800e9, 4 * 3600e9, 24 * 3600e9, 30 * 24 * 3600e9, 4294967295e9}
 	valid = verifh.Pick(r, durs)
 	pref = verifh.Pick(r, durs)
